@@ -127,8 +127,8 @@ func c02IsTempRemoval(f *File) func(string, *ast.CallExpr) bool {
 			return true
 		}
 		if fn == "os.Remove" && len(c.Args) == 1 {
-			a := strings.ToLower(f.Str(c.Args[0]))
-			return strings.Contains(a, "temp") || strings.Contains(a, ".compact")
+			a := f.Str(c.Args[0])
+			return a == "tempPath" || strings.HasSuffix(a, `+ ".compact"`) || strings.HasPrefix(a, "GetCompactionTempPath(")
 		}
 		return false
 	}
@@ -186,6 +186,28 @@ func c02WriterFsyncs(s *c02Src, method string) (Tri, string) {
 		return Unknown, c02Writer
 	}
 	si, sc := c02UncondIdx(s.w, fd, c02Named("fw.file.Sync"))
+	// an early success return in front of the fsync (e.g. "nothing buffered: return nil") makes it conditional
+	if si >= 0 {
+		for _, st := range fd.Body.List[:si] {
+			early := false
+			switch x := st.(type) {
+			case *ast.ReturnStmt:
+				early = true
+			case *ast.IfStmt:
+				if s.w.Str(x.Cond) != "fw.closed" {
+					ast.Inspect(x.Body, func(n ast.Node) bool {
+						if r, ok := n.(*ast.ReturnStmt); ok && len(r.Results) == 1 && s.w.Str(r.Results[0]) == "nil" {
+							early = true
+						}
+						return true
+					})
+				}
+			}
+			if early {
+				return Unknown, c02Where(s.w, st)
+			}
+		}
+	}
 	if method == "Sync" {
 		if si >= 0 {
 			return Yes, c02Where(s.w, sc)
@@ -245,7 +267,7 @@ func c02OpensExistingForAppend(s *c02Src) (appendMode Tri, truncates Tri, where 
 		// `return fw.createNewFile()` — and a torn tail is cut by walking the block headers
 		recreate := len(s.w.Calls(oe, "fw.createNewFile"))
 		walks := s.w.Contains(oe, "file.ReadAt(") && s.w.Contains(oe, "BlockHeaderSize")
-		if len(truncCalls) == 1 && recreate == 2 && walks && seekEnd {
+		if len(truncCalls) == 1 && len(truncCalls[0].Args) == 1 && s.w.Str(truncCalls[0].Args[0]) == "end" && recreate == 2 && walks && seekEnd {
 			return Yes, Yes, c02Where(s.w, truncCalls[0])
 		}
 		return Yes, Unknown, where
